@@ -36,7 +36,42 @@ def root_name(node):
     return cur.id if isinstance(cur, ast.Name) else None
 
 
+def havoc_unknown_call(ex, e, st, why):
+    """lenient mode (only used on code that differs from the recorded baseline): a call without contract is given the weakest
+    contract — it may change every heap field anywhere, allocate, and return anything"""
+    args, kwargs = [], {}
+    try:
+        args, kwargs = eval_args(ex, e, st)
+    except Unsupported:
+        pass
+    ex.notes.append(f'lenient: {why}')
+    nn = S.fresh('next_ref', z3.IntSort())
+    st.assume(nn >= st.next_ref)
+    st.next_ref = nn
+    for f in list(set(st.heap) | set(ex.init_heap)):
+        if f.startswith('ghost:'):
+            continue
+        newt = S.fresh('uk_' + f, st.field(f).sort())
+        st.set_field(f, newt)
+        for ax in ex.heap_axioms(f, newt, nn):
+            st.assume(ax)
+        ex.register_epoch(newt, nn)
+    r = S.fresh('uk_ret')
+    from .engine import below
+    st.assume(below(r, nn))
+    return val(st, V(r, S.Any))
+
+
 def dispatch_call(ex, e, st):
+    try:
+        return _dispatch_call(ex, e, st)
+    except Unsupported as u:
+        if getattr(ex, 'lenient', False) and ('no contract' in str(u) or 'neither contract' in str(u) or 'has no trusted' in str(u)):
+            return havoc_unknown_call(ex, e, st, str(u))
+        raise
+
+
+def _dispatch_call(ex, e, st):
     f = e.func
     desc = ast.unparse(e)[:100]
     # ---- call of a local value --------------------------------------------------------------------------------
